@@ -224,6 +224,7 @@ class Recorder:
         self.calls = []               # (kind, key tuple, answer tuple) for the oracle tables
         self.active = True
         self.inconsistent = None
+        self.orig_validate = {}
         self.pats = [p for p, _ in CH.Chaperone.JSON_EXTRACTION_PATTERNS]
         self.pat_names = [n for _, n in CH.Chaperone.JSON_EXTRACTION_PATTERNS]
         self.reps = [(p, r) for p, r, _ in CH.Chaperone.JSON_REPAIRS]
@@ -333,7 +334,7 @@ class Recorder:
         rec.substr = []
         return ReProxy()
 
-    def wrap_validate(rec, schema):
+    def wrap_validate(rec, schema, sidx):
         orig = schema.model_validate            # bound classmethod of the generated model
 
         def model_validate(cls, obj, *a, **k):
@@ -345,32 +346,33 @@ class Recorder:
             except BaseException as e:
                 c = rec.exn_code(e)
                 rec.log.append([5, v, c, 0])
-                rec.note("validate", [v], [c, 0])
+                rec.note("validate", [sidx, v], [c, 0])
                 raise
             i = rec.iid(inst)
             rec.log.append([5, v, 0, i])
-            rec.note("validate", [v], [0, i])
+            rec.note("validate", [sidx, v], [0, i])
             return inst
         schema.model_validate = classmethod(model_validate)
-        rec.orig_validate = orig
+        rec.orig_validate[sidx] = orig
 
-    def wrap_coerce(rec, chap):
+    def wrap_coerce(rec, chap, schemas):
         orig = chap._coerce_types_tracked
 
         def coerce(data, schema):
             if not rec.active:
                 return orig(data, schema)
+            sidx = next((i for i, sc in enumerate(schemas) if sc is schema), 99)
             v = rec.vid(data)
             try:
                 out, names = orig(data, schema)
             except BaseException as e:
                 c = rec.exn_code(e)
                 rec.log.append([4, v, c])
-                rec.note("coerce", [v], [c])
+                rec.note("coerce", [sidx, v], [c])
                 raise
             row = [0, rec.vid(out)] + [rec.nid(n) for n in names]
             rec.log.append([4, v] + row)
-            rec.note("coerce", [v], row)
+            rec.note("coerce", [sidx, v], row)
             return out, names
         chap._coerce_types_tracked = coerce
 
@@ -442,6 +444,11 @@ def co_fn(kind):
     return r
 
 
+
+
+CO_KINDS = ["identity", "braces", "const", "raise"]
+
+
 class C11(Check):
     PID = "C11"
     HEADER = "From Verif Require Import C11.Model."
@@ -449,54 +456,68 @@ class C11(Check):
     CASE_TYPE = "case"
     N_QUICK = 800
     N_THOROUGH = 20000
-    RULE = ("per case: a generated pydantic schema (1-5 fields over int/float/str/bool/List[int]/List[str]/Optional/nested "
-            "models, required or defaulted), a random instance serialised with json.dumps and 0-3 corruption operators "
-            "(markdown fences, <json> tags, prose, single quotes, trailing commas, Python literals, truncation, type swaps, "
-            "unquoted keys, undefined/NaN, two JSON objects, deep nesting up to 100000, lone surrogates, BOM/whitespace padding, "
-            "100k-character strings, 5000-digit integers) or a scalar/degenerate text; constructor and per-call strategy "
-            "lists: default, STRICT-first, random orders/subsets with duplicates; optional co-chaperone (identity/braces/"
-            "const/raising) and on_misfold (recording/raising); every strategy list of length <= 2 (quick) / <= 3 (thorough) "
-            "x 14 canonical texts enumerated. Each case runs fold then fold_enhanced on one Chaperone. non-trivial = some "
-            "corruption, non-default strategies or callback; distinct by case content")
+    RULE = ("a case is a HISTORY of 1..5 fold / fold_enhanced calls (plus occasional register_co_chaperone / reset_statistics) "
+            "on ONE Chaperone object: the text of a call is usually byte-identical to an earlier one, the schema usually the "
+            "same, the per-call strategies override varies (None, the case's list, single strategies, random orders/subsets with "
+            "duplicates); 35% of the cases are the pair fold;fold_enhanced with identical arguments. Texts: a generated pydantic "
+            "schema (1-5 fields over int/float/str/bool/List[int]/List[str]/Optional/nested models, required or defaulted), a "
+            "random instance serialised with json.dumps and 0-3 corruption operators (markdown fences, <json> tags, prose, single "
+            "quotes, trailing commas, Python literals, truncation, type swaps, unquoted keys, undefined/NaN, two JSON objects, deep "
+            "nesting up to 100000, lone surrogates, BOM/whitespace padding, 100k-character strings, 5000-digit integers) or a "
+            "scalar/degenerate text; constructor strategies default/STRICT-first/random; optional co-chaperone (identity/braces/"
+            "const/raising) and on_misfold (recording/raising). Enumerated: every strategy list of length <= 2 (quick) / <= 3 "
+            "(thorough) x 14 canonical texts as fold;fold_enhanced, and every ordered pair A,B of {default,[S],[E],[L],[R]} x 14 texts "
+            "as fold_enhanced(A);fold_enhanced(B);fold(B) on one object. non-trivial = some corruption, non-default strategies, "
+            "callback or more than one call; distinct by case content")
     LEVEL_TEXT = ("Coq theorems, for all raw texts, schemas, strategy lists and ALL behaviours of json/re/str.strip/pydantic/"
                   "coercion/co-chaperone/on_misfold (return anything or raise any Exception class at any call), about an "
-                  "executable model of Chaperone.fold and fold_enhanced: valid => the structure was returned by a model_validate "
-                  "call made during the fold on a value obtained by json.loads (and possibly the coercion table) from a text "
-                  "derived from the raw text only by strip/findall/sub/co-chaperone calls; invalid => no structure and an error "
-                  "trace; fold and fold_enhanced agree on outcome, structure, counters and the whole call sequence; confidence in "
-                  "[0,1] and = 1 iff STRICT succeeded; STRICT-first on loadable+valid text makes exactly strip, loads, "
-                  "model_validate and returns that instance with confidence 1 and no coercion; neither fold raises unless a user "
-                  "callback does. Proved by induction over the strategy list, the pattern lists and the match lists. The model "
-                  "is tied to the code by replaying, inside Coq, the oracle answers recorded from every implementation run and "
-                  "comparing results, statistics, confidences (bit-exact binary64) and the sequence of oracle calls.")
+                  "executable model of Chaperone.fold and fold_enhanced: valid => the structure was returned by model_validate "
+                  "on a value obtained by json.loads (and possibly the coercion table) from a text derived from the raw text "
+                  "only by strip/findall/sub/co-chaperone calls; invalid => no structure and an error trace; fold and "
+                  "fold_enhanced agree on outcome, structure, counters and the whole call sequence; confidence in [0,1] and = 1 "
+                  "iff STRICT succeeded; STRICT-first on loadable+valid text makes exactly strip, loads, model_validate and "
+                  "returns that instance with confidence 1 and no coercion; neither fold raises unless a user callback does; "
+                  "and for every HISTORY of calls on one object (state = counters + co-chaperone registry) each call returns "
+                  "exactly what it returns on a fresh Chaperone (c11_history_independent), so every per-call theorem holds at "
+                  "every point of every history. Proved by induction over the call list, the strategy list, the pattern lists "
+                  "and the match lists. The model is tied to the code by replaying, inside Coq, the oracle answers recorded "
+                  "from every implementation history and comparing per call the results, statistics, confidences (bit-exact "
+                  "binary64) and the sequence of oracle calls.")
     LEVEL_NOTE = ("Trusts: Coq kernel+VM; the recording harness; json, re, str.strip, pydantic and the coercion table are "
                   "oracles (their answers are recorded, not modelled), so that findall returns substrings and sub returns a "
                   "'repair' of its argument is outside the proof (c11_provenance_partial; substring-ness of every extraction "
                   "candidate is tested in Python on each run); confidence theorems are over exact rationals, the executed "
                   "model uses binary64 (plus a bounded binary64 lemma for up to 1000 coercions). Axioms: none.")
-    TECHNIQUE = "Coq proof by induction over strategy/pattern/match lists of a writer-monad model + oracle-table correspondence against Chaperone.fold/fold_enhanced"
+    TECHNIQUE = ("Coq proof by induction over call/strategy/pattern/match lists of a writer-monad model + oracle-table "
+                 "correspondence against histories of Chaperone.fold/fold_enhanced on one object")
     TRUSTED = ["json.loads, re.findall, re.sub, str.strip, pydantic model_validate and Chaperone._coerce_types_tracked are oracles: "
                "their answers are recorded per case and replayed in the model; they are deterministic functions of the content "
-               "of their argument (ids are assigned by content: text, type+repr of values and instances)",
+               "of their argument (ids are assigned by content: text, type+repr of values and instances) and of the schema",
                "str.strip cannot be intercepted: its table is computed by the harness for every text seen; the strip calls are "
                "visible only through the arguments of json.loads",
                "exceptions raised by the oracles are subclasses of Exception (KeyboardInterrupt/SystemExit/MemoryError excluded)",
                "confidence: theorems over Q with decimal literals read exactly; correspondence is bit-exact on binary64 (PrimFloat)",
-               "error strings are compared by shape (prefix / fixed text), durations are not modelled"]
+               "error strings are compared by shape (prefix / fixed text), durations are not modelled",
+               "instance state modelled: the four statistics counters and the co_chaperones dict; strategies, on_misfold, silent "
+               "and max_retries are set by the constructor only"]
     ASSUMPTIONS = ["raw_peptide_chain is a str and target_schema a pydantic BaseModel subclass",
                    "strategy lists contain FoldingStrategy members only",
-                   "fold may raise only if the registered co-chaperone or the on_misfold callback raises"]
+                   "fold may raise only if the registered co-chaperone or the on_misfold callback raises",
+                   "calls on one Chaperone object are sequential"]
 
     # -- generation --------------------------------------------------------
+    @staticmethod
+    def _rand_list(rng):
+        n = rng.choice([1, 1, 2, 2, 3, 4, 5])
+        if rng.random() < 0.7:
+            return rng.sample(DEFAULT, min(n, 4))
+        return [rng.choice(DEFAULT) for _ in range(n)]
+
     def _strat_lists(self, rng):
         k = rng.random()
         if k < 0.35:
             return None, None
-        def rl():
-            n = rng.choice([1, 1, 2, 2, 3, 4, 5])
-            if rng.random() < 0.7:
-                return rng.sample(DEFAULT, min(n, 4))
-            return [rng.choice(DEFAULT) for _ in range(n)]
+        rl = lambda: self._rand_list(rng)
         if k < 0.55:
             rest = rng.sample([1, 2, 3], rng.randint(0, 3))
             return (None, [0] + rest) if rng.random() < 0.5 else ([0] + rest, None)
@@ -506,44 +527,88 @@ class C11(Check):
             return rl(), None
         return rl(), rng.choice([rl(), []])
 
+    def _gen_raw(self, rng, spec):
+        ops = []
+        if rng.random() < 0.08:
+            return rng.choice(SCALARS), ["scalar"]
+        d = gen_instance(rng, spec)
+        if rng.random() < 0.2:
+            d = swap_types(rng, spec, d)
+            ops.append("type_swap")
+        if rng.random() < 0.04:
+            key = rng.choice(list(d) or ["a"])
+            d[key] = "x" * 100000 if rng.random() < 0.5 else ("y, " * 30000)
+            ops.append("100k_string")
+        if rng.random() < 0.03:
+            v = 1
+            for _ in range(rng.choice([20, 200, 3000])):
+                v = {"x": v}
+            d[rng.choice(list(d) or ["a"])] = v
+            ops.append("deep_field")
+        try:
+            raw = _json.dumps(d, ensure_ascii=rng.random() < 0.5, indent=rng.choice([None, None, 2]))
+        except RecursionError:
+            raw = '{"a": ' + '{"x": ' * 3000 + "1" + "}" * 3001
+        for _ in range(rng.choice([0, 0, 0, 1, 1, 1, 1, 2, 2, 3])):
+            op = rng.choice(TEXT_OPS)
+            raw = apply_text_op(rng, op, raw)
+            ops.append(op)
+        return raw, ops
+
     def _gen_one(self, rng):
+        """One (schema, text, strategies, callbacks) tuple; used for single calls and by the healing-loop test."""
         spec = gen_spec(rng)
         ctor, arg = self._strat_lists(rng)
-        ops = []
-        k = rng.random()
-        if k < 0.08:
-            raw = rng.choice(SCALARS)
-            ops = ["scalar"]
-        else:
-            d = gen_instance(rng, spec)
-            if rng.random() < 0.2:
-                d = swap_types(rng, spec, d)
-                ops.append("type_swap")
-            if rng.random() < 0.04:
-                key = rng.choice(list(d) or ["a"])
-                d[key] = "x" * 100000 if rng.random() < 0.5 else ("y, " * 30000)
-                ops.append("100k_string")
-            if rng.random() < 0.03:
-                v = 1
-                for _ in range(rng.choice([20, 200, 3000])):
-                    v = {"x": v}
-                d[rng.choice(list(d) or ["a"])] = v
-                ops.append("deep_field")
-            try:
-                raw = _json.dumps(d, ensure_ascii=rng.random() < 0.5, indent=rng.choice([None, None, 2]))
-            except RecursionError:
-                raw = '{"a": ' + '{"x": ' * 3000 + "1" + "}" * 3001
-            nops = rng.choice([0, 0, 0, 1, 1, 1, 1, 2, 2, 3])
-            for _ in range(nops):
-                op = rng.choice(TEXT_OPS)
-                raw = apply_text_op(rng, op, raw)
-                ops.append(op)
-        co = rng.choice(["identity", "braces", "const", "raise"]) if rng.random() < 0.08 else None
+        raw, ops = self._gen_raw(rng, spec)
+        co = rng.choice(CO_KINDS) if rng.random() < 0.08 else None
         mis = rng.choice(["record", "record", "raise"]) if rng.random() < 0.15 else None
         return {"schema": spec, "raw": to_parts(raw), "ctor": ctor, "arg": arg, "co": co, "misfold": mis, "ops": ops}
 
+    @staticmethod
+    def history(spec, raw, ctor, calls, co=None, misfold=None, tags=()):
+        """calls: list of (fn, arg) on text 0 / schema 0."""
+        return {"schemas": [spec], "texts": [to_parts(raw) if isinstance(raw, str) else raw], "ctor": ctor,
+                "co": ({"0": co} if co else {}), "misfold": misfold,
+                "ops": [[fn, 0, 0, arg] for fn, arg in calls], "tags": list(tags)}
+
+    def _gen_hist(self, rng):
+        b = self._gen_one(rng)
+        spec = b["schema"]
+        if rng.random() < 0.35:
+            return self.history(spec, b["raw"], b["ctor"], [("fold", b["arg"]), ("enh", b["arg"])], b["co"], b["misfold"],
+                                b["ops"] + ["pair"])
+        schemas, texts, tags = [spec], [b["raw"]], list(b["ops"])
+        if rng.random() < 0.3:
+            raw2, ops2 = self._gen_raw(rng, spec)
+            texts.append(to_parts(raw2))
+            tags += ops2
+        if rng.random() < 0.2:
+            schemas.append(gen_spec(rng))
+            tags.append("two_schemas")
+        ops = []
+        for _ in range(rng.choice([1, 2, 2, 3, 3, 4, 5])):
+            if rng.random() < 0.07:
+                ops.append(["register", rng.randrange(len(schemas)), rng.choice(CO_KINDS)])
+            if rng.random() < 0.05:
+                ops.append(["reset"])
+            k = rng.random()
+            if k < 0.35:
+                arg = None
+            elif k < 0.55:
+                arg = b["arg"]
+            elif k < 0.8:
+                arg = [rng.choice(DEFAULT)]
+            else:
+                arg = self._rand_list(rng)
+            ops.append(["enh" if rng.random() < 0.6 else "fold",
+                        0 if rng.random() < 0.75 else rng.randrange(len(texts)),
+                        0 if rng.random() < 0.85 else rng.randrange(len(schemas)), arg])
+        tags.append("history")
+        return {"schemas": schemas, "texts": texts, "ctor": b["ctor"], "co": ({"0": b["co"]} if b["co"] else {}),
+                "misfold": b["misfold"], "ops": ops, "tags": tags}
+
     def gen_cases(self, rng, n):
-        return [self._gen_one(rng) for _ in range(n)]
+        return [self._gen_hist(rng) for _ in range(n)]
 
     CANON_SPEC = [{"name": "name", "type": "str", "required": True}, {"name": "age", "type": "int", "required": True},
                   {"name": "tags", "type": "list_str", "required": False, "default": []}]
@@ -552,6 +617,9 @@ class C11(Check):
                  '{"name": "None", "age": 3,}', '{"name": "A", "age": "41", "tags": "p, q"}', '{"name": 5, "age": 1}',
                  'x {"zzz": 1} y {"name": "C", "age": 2} z', "null", "3", "not json at all", '{"name": "T"',
                  "[" * 100000, '<json>{"name": "X", "age": 1}</json>']
+    NESTED_SPEC = [{"name": "a", "type": "nested", "required": True, "fields": [{"name": "b", "type": "int", "required": True}]},
+                   {"name": "tag", "type": "str", "required": True}, {"name": "note", "type": "opt_str", "required": False}]
+    NESTED_RAW = '{"a": {"b": 7}, "tag": "x", "note": null}'
 
     def exhaustive_cases(self):
         import itertools
@@ -560,8 +628,13 @@ class C11(Check):
         for n in range(1, top + 1):
             for combo in itertools.product(DEFAULT, repeat=n):
                 for raw in self.CANON_RAW:
-                    out.append({"schema": self.CANON_SPEC, "raw": to_parts(raw), "ctor": None, "arg": list(combo),
-                                "co": None, "misfold": None, "ops": ["canon"]})
+                    out.append(self.history(self.CANON_SPEC, raw, None, [("fold", list(combo)), ("enh", list(combo))],
+                                            tags=["canon"]))
+        probes = [None, [0], [1], [2], [3]]
+        for A in probes:
+            for B in probes:
+                for spec, raw in [(self.CANON_SPEC, r) for r in self.CANON_RAW] + [(self.NESTED_SPEC, self.NESTED_RAW)]:
+                    out.append(self.history(spec, raw, None, [("enh", A), ("enh", B), ("fold", B)], tags=["canon-pair"]))
         return out
 
     def corpus_cases(self):
@@ -570,8 +643,16 @@ class C11(Check):
                               ('{"name": "None", "age": 3,}', None, None), ("[" * 100000, None, "record"),
                               ('{"name": "a", "age": ' + "9" * 5000 + "}", [1, 3], None),
                               ('{"name": "A", "age": "41"}', [2], None), ("nothing", None, "raise")]:
-            base.append({"schema": self.CANON_SPEC, "raw": to_parts(raw), "ctor": None, "arg": arg, "co": None,
-                         "misfold": mis, "ops": ["corpus"]})
+            base.append(self.history(self.CANON_SPEC, raw, None, [("fold", arg), ("enh", arg)], misfold=mis, tags=["corpus"]))
+        # a verdict obtained under a restricted strategy subset must not be replayed later
+        base.append(self.history(self.NESTED_SPEC, self.NESTED_RAW, None, [("enh", [1]), ("enh", None), ("fold", None)],
+                                 tags=["corpus"]))
+        base.append(self.history(self.CANON_SPEC, self.CANON_RAW[2], None, [("enh", [0]), ("enh", None), ("fold", None)],
+                                 misfold="record", tags=["corpus"]))
+        base.append({"schemas": [self.CANON_SPEC, self.NESTED_SPEC], "texts": [to_parts(self.CANON_RAW[0]), to_parts(self.NESTED_RAW)],
+                     "ctor": [0, 3], "co": {}, "misfold": None,
+                     "ops": [["enh", 0, 1, None], ["enh", 0, 0, None], ["register", 0, "const"], ["fold", 0, 0, None],
+                             ["reset"], ["enh", 1, 1, [1, 0]]], "tags": ["corpus"]})
         return base + super().corpus_cases()
 
     # -- client: the healing loop built on fold_enhanced (a test, not a proof) ----
@@ -586,7 +667,7 @@ class C11(Check):
             schema = build_schema(case["schema"])
             raws = [parts_text(case["raw"])]
             for _k in range(rng.randint(0, 2)):
-                raws.append(parts_text(self._gen_one(rng)["raw"]))
+                raws.append(raws[0] if rng.random() < 0.4 else parts_text(self._gen_one(rng)["raw"]))
             raws.append(_json.dumps(gen_instance(rng, case["schema"])))
             calls = []
 
@@ -631,10 +712,9 @@ class C11(Check):
         from operon_ai.organelles import chaperone as CH
         S = [CH.FoldingStrategy(v) for v in STRATS]
         code = {s: i for i, s in enumerate(S)}
-        raw = parts_text(case["raw"])
-        schema = build_schema(case["schema"])
+        texts = [parts_text(t) for t in case["texts"]]
+        schemas = [build_schema(sp, "M%d" % i) for i, sp in enumerate(case["schemas"])]
         rec = Recorder(CH)
-        misfold_seen = []
 
         def strat_list(l):
             return None if l is None else [S[i] for i in l]
@@ -646,29 +726,30 @@ class C11(Check):
             return out
 
         def on_misfold(res):
-            misfold_seen.append(res)
             c = 3 if case["misfold"] == "raise" else 0
             if rec.active:
                 rec.log.append([7, c] + att_obs(res.attempts))
             if c:
                 raise CoRaise("on_misfold failed")
 
-        co = None
-        if case["co"]:
-            inner = co_fn(case["co"])
+        def make_co(kind):
+            inner, cid = co_fn(kind), CO_KINDS.index(kind)
 
             def co(s):
+                if not rec.active:
+                    return inner(s)
                 t = rec.tid(s)
                 try:
                     out = inner(s)
-                except BaseException as e:
+                except BaseException:
                     rec.log.append([6, t, 3, 0])
-                    rec.note("cochap", [t], [3, 0])
+                    rec.note("cochap", [cid, t], [3, 0])
                     raise
                 o = rec.tid(out)
                 rec.log.append([6, t, 0, o])
-                rec.note("cochap", [t], [0, o])
+                rec.note("cochap", [cid, t], [0, o])
                 return out
+            return co
 
         def stats_obs(chap):
             st = chap.get_statistics()
@@ -677,63 +758,87 @@ class C11(Check):
 
         old_json, old_re = CH.json, CH.re
         CH.json, CH.re = rec.make_json(), rec.make_re()
-        rec.wrap_validate(schema)
-        out = {}
+        for i, sc in enumerate(schemas):
+            rec.wrap_validate(sc, i)
+        for t in texts:
+            rec.tid(t)                                       # text i has id i
+        steps = []
+        reg = {int(k): v for k, v in case["co"].items()}
 
         def body():
-            chap = CH.Chaperone(strategies=strat_list(case["ctor"]), co_chaperones={schema: co} if co else None,
+            chap = CH.Chaperone(strategies=strat_list(case["ctor"]),
+                                co_chaperones={schemas[i]: make_co(k) for i, k in reg.items()} or None,
                                 on_misfold=on_misfold if case["misfold"] else None, silent=True)
-            rec.wrap_coerce(chap)
-            rec.tid(raw)                                    # raw text is id 0
-            for nm, fn in (("plain", chap.fold), ("enh", chap.fold_enhanced)):
-                rec.log = []
-                try:
-                    out[nm] = ("ret", fn(raw, schema, strat_list(case["arg"])))
-                except Exception as e:
-                    out[nm] = ("raised", e)
-                out[nm + "_log"] = rec.log
-                out[nm + "_stats"] = stats_obs(chap)
+            rec.wrap_coerce(chap, schemas)
+            for op in case["ops"]:
+                st = {"op": op, "reg": dict(reg)}
+                if op[0] == "register":
+                    chap.register_co_chaperone(schemas[op[1]], make_co(op[2]))
+                    reg[op[1]] = op[2]
+                elif op[0] == "reset":
+                    chap.reset_statistics()
+                    st["stats"] = stats_obs(chap)
+                else:
+                    rec.log = []
+                    fn = chap.fold if op[0] == "fold" else chap.fold_enhanced
+                    try:
+                        st["res"] = ("ret", fn(texts[op[1]], schemas[op[2]], strat_list(op[3])))
+                    except Exception as e:
+                        st["res"] = ("raised", e)
+                    st["log"] = rec.log
+                    st["stats"] = stats_obs(chap)
+                steps.append(st)
             return True
 
         try:
-            common.call_with_watchdog(body, 60.0)
+            common.call_with_watchdog(body, 90.0)
         finally:
             rec.active = False
             CH.json, CH.re = old_json, old_re
 
-        def struct_obs(s):
-            return [0, 0] if s is None else [1, rec.iid(s)]
+        def struct_obs(x):
+            return [0, 0] if x is None else [1, rec.iid(x)]
 
         obs = []
-        k1, r1 = out["plain"]
-        if k1 == "raised":
-            obs.append([1, rec.exn_code(r1)])
-        else:
-            obs.append([0, int(r1.valid is True)] + struct_obs(r1.structure) + [err_code(r1.error_trace)])
-        obs.append(out["plain_stats"])
-        k2, r2 = out["enh"]
-        if k2 == "raised":
-            obs.append([1, rec.exn_code(r2)])
-        else:
-            fr = Fraction(r2.confidence)
-            su = code.get(r2.strategy_used, -1) if r2.strategy_used is not None else -1
-            obs.append([0, int(r2.valid is True)] + struct_obs(r2.structure) + [err_code(r2.error_trace), su,
-                                                                                fr.numerator, fr.denominator])
-            co_obs = []
-            for c in r2.coercions_applied:
-                if su == 1 and c.startswith("extracted_via_") and c[len("extracted_via_"):] in rec.pat_names:
-                    co_obs += [1, rec.pat_names.index(c[len("extracted_via_"):])]
-                elif su == 3 and c in rec.rep_names:
-                    co_obs += [2, rec.rep_names.index(c)]
+        for st in steps:
+            op = st["op"]
+            if op[0] == "register":
+                obs.append([-2, 2])
+                continue
+            if op[0] == "reset":
+                obs += [[-2, 3], st["stats"]]
+                continue
+            kind, r = st["res"]
+            if op[0] == "fold":
+                obs.append([-2, 0])
+                if kind == "raised":
+                    obs.append([1, rec.exn_code(r)])
                 else:
-                    co_obs += [3, rec.nid(c)]
-            obs.append(co_obs)
-            obs.append(att_obs(r2.attempts))
-        obs.append(out["enh_stats"])
-        obs += out["plain_log"] + [[-1]] + out["enh_log"]
+                    obs.append([0, int(r.valid is True)] + struct_obs(r.structure) + [err_code(r.error_trace)])
+            else:
+                obs.append([-2, 1])
+                if kind == "raised":
+                    obs.append([1, rec.exn_code(r)])
+                else:
+                    fr = Fraction(r.confidence)
+                    su = code.get(r.strategy_used, -1) if r.strategy_used is not None else -1
+                    obs.append([0, int(r.valid is True)] + struct_obs(r.structure)
+                               + [err_code(r.error_trace), su, fr.numerator, fr.denominator])
+                    co_obs = []
+                    for c in r.coercions_applied:
+                        if su == 1 and c.startswith("extracted_via_") and c[len("extracted_via_"):] in rec.pat_names:
+                            co_obs += [1, rec.pat_names.index(c[len("extracted_via_"):])]
+                        elif su == 3 and c in rec.rep_names:
+                            co_obs += [2, rec.rep_names.index(c)]
+                        else:
+                            co_obs += [3, rec.nid(c)]
+                    obs.append(co_obs)
+                    obs.append(att_obs(r.attempts))
+            obs.append(st["stats"])
+            obs += st["log"]
         tabs = rec.tables()
-        trace = {"rec": rec, "tabs": tabs, "out": out, "schema": schema, "raw": raw, "misfold_seen": misfold_seen,
-                 "npat": len(rec.pats), "nrep": len(rec.reps)}
+        trace = {"rec": rec, "tabs": tabs, "steps": steps, "schemas": schemas, "texts": texts,
+                 "npat": len(rec.pats), "nrep": len(rec.reps), "CH": CH, "S": S}
         if rec.inconsistent:
             trace["harness_error"] = "oracle answered one key in two ways: %r" % (rec.inconsistent,)
         return obs, trace
@@ -750,107 +855,163 @@ class C11(Check):
             self._safe_impl(case)
         trace = self._last[1]
         if not isinstance(trace, dict) or "tabs" not in trace:
-            return "(mkCase [] [] [] 0 (mkOTab [] [] [] [] [] [] [] [] 0))"
+            return "(mkCase [] [] [] [] (mkOTab [] [] [] [] [] [] [] [] 0))"
         t = trace["tabs"]
-        cfg = [trace["npat"], trace["nrep"], int(bool(case["co"])), int(bool(case["misfold"]))]
+        cfg = [trace["npat"], trace["nrep"], int(bool(case["misfold"]))]
         tab = "(mkOTab %s %s %s %s %s %s %s %s %s)" % (
             czll(t["strip"]), czll(t["loads"]), czll(t["findall"]), czll(t["sub"]), czll(t["coerce"]),
             czll(t["validate"]), czl(t["none"]), czll(t["cochap"]), cz(3 if case["misfold"] == "raise" else 0))
-        return "(mkCase %s %s %s 0 %s)" % (czl(cfg), czl(case["ctor"] or []), czl(case["arg"] or []), tab)
+        ops = []
+        for op in case["ops"]:
+            if op[0] == "register":
+                ops.append([2, op[1], CO_KINDS.index(op[2])])
+            elif op[0] == "reset":
+                ops.append([3])
+            else:
+                ops.append([0 if op[0] == "fold" else 1, op[1], op[2]] + list(op[3] or []))
+        reg0 = [[int(k), CO_KINDS.index(v)] for k, v in sorted(case["co"].items())]
+        return "(mkCase %s %s %s %s %s)" % (czl(cfg), czl(case["ctor"] or []), czll(reg0), czll(ops), tab)
 
     # -- the property, on the implementation's results -----------------------
-    def effective(self, case):
-        return (case["arg"] or None) or (case["ctor"] or None) or DEFAULT
+    @staticmethod
+    def effective(case, arg):
+        return (arg or None) or (case["ctor"] or None) or DEFAULT
 
     def monitor(self, case, obs, trace):
         if not isinstance(trace, dict) or trace.get("hang"):
             return Violation("C11/hang", "folding did not return within the watchdog time")
-        if trace.get("harness_error") and "out" not in trace:
+        if trace.get("harness_error") and "steps" not in trace:
             return Violation("C11/harness", str(trace))
-        out, schema, raw, rec = trace["out"], trace["schema"], trace["raw"], trace["rec"]
-        validate = rec.orig_validate
-        strategies = self.effective(case)
-        callbacks_raise = case["co"] == "raise" or case["misfold"] == "raise"
-        res = {}
-        for nm in ("plain", "enh"):
-            kind, r = out[nm]
-            if kind == "raised":
-                if isinstance(r, CoRaise) and callbacks_raise:
-                    continue                   # the user's own callback raised: not demanded
-                return Violation("C11/raises", f"{'fold' if nm == 'plain' else 'fold_enhanced'} raised {type(r).__name__}: {str(r)[:200]}")
-            res[nm] = r
-            log = out[nm + "_log"]
-            if r.valid is True:
-                if not isinstance(r.structure, schema):
-                    return Violation("C11/valid-not-instance", f"{nm}: valid=True but structure is {type(r.structure).__name__}, not the schema")
-                try:
-                    validate(r.structure.model_dump())
-                except Exception as e:
-                    return Violation("C11/valid-not-revalidates", f"{nm}: valid structure does not re-validate: {str(e)[:200]}")
-                why = self._provenance(rec, log, rec.iid(r.structure))
-                if why:
-                    return Violation("C11/valid-no-provenance", f"{nm}: {why}")
-            elif r.valid is False:
-                if r.structure is not None:
-                    return Violation("C11/invalid-has-structure", f"{nm}: valid=False but a structure is returned")
-                if not (isinstance(r.error_trace, str) and r.error_trace):
-                    return Violation("C11/invalid-no-trace", f"{nm}: valid=False without an error trace")
-            else:
-                return Violation("C11/valid-not-bool", f"{nm}: valid is {r.valid!r}")
+        rec = trace["rec"]
+        total = good = 0
+        for n, st in enumerate(trace["steps"]):
+            op = st["op"]
+            if op[0] == "register":
+                continue
+            if op[0] == "reset":
+                total = good = 0
+                if st["stats"] != [0] * 10:
+                    return Violation("C11/statistics", f"call {n}: counters after reset_statistics are {st['stats']}")
+                continue
+            v = self._monitor_call(case, trace, n, st)
+            if v is not None:
+                return v
+            total += 1
+            kind, r = st["res"]
+            good += int(kind == "ret" and r.valid is True)
+            if st["stats"][0] != total or st["stats"][1] != good:
+                return Violation("C11/statistics", f"call {n}: get_statistics reports total/successful {st['stats'][:2]} "
+                                                   f"after {total} folds of which {good} valid")
         # extraction candidates are substrings of the text they were extracted from (a test of what
         # c11_provenance_partial leaves to the regex engine)
         for text, ms in rec.substr:
             for m in ms:
                 if not (isinstance(m, str) and m in text):
                     return Violation("C11/extraction-not-substring", f"findall produced {m!r:.80} which is not in its input")
-        if "plain" in res and "enh" in res:
-            p, e = res["plain"], res["enh"]
-            if p.valid != e.valid or repr(p.structure) != repr(e.structure) or type(p.structure) is not type(e.structure):
-                return Violation("C11/plain-enhanced-disagree", f"fold: valid={p.valid} {p.structure!r:.100}; fold_enhanced: valid={e.valid} {e.structure!r:.100}")
-        if "enh" in res:
-            e = res["enh"]
-            c = e.confidence
+        if trace.get("harness_error"):
+            return Violation("C11/harness", trace["harness_error"])
+        return None
+
+    def _monitor_call(self, case, trace, n, st):
+        """The whole property for ONE call of the history, whatever earlier calls did."""
+        rec, CH, S = trace["rec"], trace["CH"], trace["S"]
+        op = st["op"]
+        fn, raw, sidx, arg = op[0], trace["texts"][op[1]], op[2], op[3]
+        schema = trace["schemas"][sidx]
+        validate = rec.orig_validate[sidx]
+        strategies = self.effective(case, arg)
+        co_kind = st["reg"].get(sidx)
+        callbacks_raise = co_kind == "raise" or case["misfold"] == "raise"
+        name = f"call {n} ({'fold' if fn == 'fold' else 'fold_enhanced'}, strategies={[STRATS[i] for i in strategies]})"
+        kind, r = st["res"]
+        if kind == "raised":
+            if isinstance(r, CoRaise) and callbacks_raise:
+                return None                    # the user's own callback raised: not demanded
+            return Violation("C11/raises", f"{name} raised {type(r).__name__}: {str(r)[:200]}")
+        if r.valid is True:
+            if not isinstance(r.structure, schema):
+                return Violation("C11/valid-not-instance", f"{name}: valid=True but structure is {type(r.structure).__name__}, not the schema")
+            try:
+                validate(r.structure.model_dump())
+            except Exception as e:
+                return Violation("C11/valid-not-revalidates", f"{name}: valid structure does not re-validate: {str(e)[:200]}")
+            why = self._provenance(rec, st["log"], rec.iid(r.structure), rec.texts[raw])
+            if why:
+                return Violation("C11/valid-no-provenance", f"{name}: {why}")
+        elif r.valid is False:
+            if r.structure is not None:
+                return Violation("C11/invalid-has-structure", f"{name}: valid=False but a structure is returned")
+            if not (isinstance(r.error_trace, str) and r.error_trace):
+                return Violation("C11/invalid-no-trace", f"{name}: valid=False without an error trace")
+        else:
+            return Violation("C11/valid-not-bool", f"{name}: valid is {r.valid!r}")
+        if fn == "enh":
+            c = r.confidence
             if not (isinstance(c, (int, float)) and 0.0 <= c <= 1.0):
-                return Violation("C11/confidence-range", f"confidence {c!r} outside [0,1]")
-            used = e.strategy_used.value if e.strategy_used is not None else None
+                return Violation("C11/confidence-range", f"{name}: confidence {c!r} outside [0,1]")
+            used = r.strategy_used.value if r.strategy_used is not None else None
             if (c == 1.0) != (used == "strict"):
-                return Violation("C11/confidence-one-iff-strict", f"confidence {c!r} with strategy_used={used}")
-            if e.valid and (used is None or STRATS.index(used) not in strategies):
-                return Violation("C11/strategy-used", f"strategy_used={used} is not one of the requested strategies")
-            if not e.valid and (c != 0.0 or used is not None):
-                return Violation("C11/invalid-confidence", f"invalid fold with confidence {c!r}, strategy_used={used}")
+                return Violation("C11/confidence-one-iff-strict", f"{name}: confidence {c!r} with strategy_used={used}")
+            if r.valid and (used is None or STRATS.index(used) not in strategies):
+                return Violation("C11/strategy-used", f"{name}: strategy_used={used} is not one of the requested strategies")
+            if not r.valid and (c != 0.0 or used is not None):
+                return Violation("C11/invalid-confidence", f"{name}: invalid fold with confidence {c!r}, strategy_used={used}")
         # clean schema-valid JSON with STRICT first is accepted verbatim
-        if strategies[0] == 0 and not case["co"]:
+        if strategies[0] == 0 and co_kind is None:
             try:
                 want = validate(_json.loads(raw))
             except Exception:
                 want = None
             if want is not None:
-                for nm, r in res.items():
-                    if not (r.valid is True and repr(r.structure) == repr(want)):
-                        return Violation("C11/strict-not-verbatim", f"{nm}: schema-valid JSON with STRICT first gave valid={r.valid} {r.structure!r:.100}, json.loads gives {want!r:.100}")
-                if "enh" in res:
-                    e = res["enh"]
-                    if not (e.strategy_used is not None and e.strategy_used.value == "strict" and e.confidence == 1.0
-                            and e.coercions_applied == [] and len(e.attempts) == 1):
-                        return Violation("C11/strict-not-verbatim", f"schema-valid JSON with STRICT first: strategy_used={e.strategy_used}, confidence={e.confidence}, coercions={e.coercions_applied}")
-        # statistics
-        nvalid = sum(1 for r in res.values() if r.valid is True)
-        if len(res) == 2 and (out["enh_stats"][0] != 2 or out["enh_stats"][1] != nvalid):
-            return Violation("C11/statistics", f"get_statistics reports total/successful {out['enh_stats'][:2]} after 2 folds, {nvalid} valid")
-        if trace.get("harness_error"):
-            return Violation("C11/harness", trace["harness_error"])
+                if not (r.valid is True and repr(r.structure) == repr(want)):
+                    return Violation("C11/strict-not-verbatim", f"{name}: schema-valid JSON with STRICT first gave valid={r.valid} "
+                                                                f"{r.structure!r:.100}, json.loads gives {want!r:.100}")
+                if fn == "enh" and not (r.strategy_used is not None and r.strategy_used.value == "strict" and r.confidence == 1.0
+                                        and r.coercions_applied == [] and len(r.attempts) == 1):
+                    return Violation("C11/strict-not-verbatim", f"{name}: schema-valid JSON with STRICT first: strategy_used="
+                                                                f"{r.strategy_used}, confidence={r.confidence}, coercions={r.coercions_applied}")
+        # the same arguments on a FRESH Chaperone: the other fold must agree (plain/enhanced), the same
+        # fold must give the same answer (no verdict carried over from earlier calls)
+        if co_kind == "raise":
+            return None
+
+        def fresh(which):
+            chap = CH.Chaperone(strategies=None if case["ctor"] is None else [S[i] for i in case["ctor"]],
+                                co_chaperones={schema: co_fn(co_kind)} if co_kind else None, silent=True)
+            f = chap.fold if which == "fold" else chap.fold_enhanced
+            try:
+                return f(raw, schema, None if arg is None else [S[i] for i in arg])
+            except Exception as e:
+                return e
+        other = fresh("enh" if fn == "fold" else "fold")
+        if isinstance(other, Exception):
+            return Violation("C11/raises", f"{name}: the other fold raised {type(other).__name__} on a fresh Chaperone: {str(other)[:150]}")
+        if other.valid != r.valid or repr(other.structure) != repr(r.structure) or type(other.structure) is not type(r.structure):
+            p, e = (r, other) if fn == "fold" else (other, r)
+            return Violation("C11/plain-enhanced-disagree", f"{name}: fold gives valid={p.valid} {p.structure!r:.100}; "
+                                                            f"fold_enhanced gives valid={e.valid} {e.structure!r:.100}")
+        same = fresh(fn)
+        if isinstance(same, Exception):
+            return Violation("C11/raises", f"{name}: raised {type(same).__name__} on a fresh Chaperone: {str(same)[:150]}")
+
+        def view(x):
+            v = [x.valid, repr(x.structure)]
+            if fn == "enh":
+                v += [x.confidence, x.strategy_used, list(x.coercions_applied), [(a.strategy, a.success) for a in x.attempts]]
+            return v
+        if view(same) != view(r):
+            return Violation("C11/history-dependent", f"{name}: in this history the call gives {view(r)!r:.200}, on a fresh Chaperone {view(same)!r:.200}")
         return None
 
     @staticmethod
-    def _provenance(rec, log, sid):
+    def _provenance(rec, log, sid, raw_id):
         """The structure was returned by model_validate, during this fold, on a value obtained by json.loads
         (possibly through the coercion table) from a text derived from the raw text by oracle calls only."""
         strip = {}
         for s, t in list(rec.texts.items()):
             if isinstance(s, str) and s.strip() in rec.texts:
                 strip[t] = rec.texts[s.strip()]
-        derived, parsed = {0}, set()
+        derived, parsed = {raw_id}, set()
         ok = False
         for row in log:
             derived |= {strip[t] for t in list(derived) if t in strip}
@@ -874,45 +1035,79 @@ class C11(Check):
             return "the returned structure was not produced by a schema.model_validate call made during the fold"
         return "the validated value does not come from json.loads of a text derived from the raw text"
 
+    @staticmethod
+    def _calls(case):
+        return [op for op in case["ops"] if op[0] in ("fold", "enh")]
+
     def nontrivial(self, case, obs, trace):
-        return bool(case["ops"]) or bool(case["ctor"]) or bool(case["arg"]) or bool(case["co"]) or bool(case["misfold"])
+        return (bool([t for t in case["tags"] if t != "pair"]) or bool(case["ctor"]) or bool(case["co"]) or bool(case["misfold"])
+                or len(self._calls(case)) > 2 or any(op[3] for op in self._calls(case)))
 
     def classify(self, case, obs, trace):
-        ks = ["op=" + o for o in case["ops"]] or ["op=clean"]
-        ks.append("strategies=%d" % len(self.effective(case)))
+        ks = ["op=" + o for o in case["tags"]] or ["op=clean"]
+        calls = self._calls(case)
+        ks.append("calls=%d" % len(calls))
+        if len(case["ops"]) > len(calls):
+            ks += ["op:" + op[0] for op in case["ops"] if op[0] in ("register", "reset")]
+        if len({(op[1], op[2]) for op in calls}) < len(calls):
+            ks.append("repeated-text+schema")
+        if len({(op[1], op[2], tuple(self.effective(case, op[3]))) for op in calls}) > len({(op[1], op[2]) for op in calls}):
+            ks.append("same-text-different-strategies")
         if case["co"]:
-            ks.append("co=" + case["co"])
+            ks += ["co=" + v for v in case["co"].values()]
         if case["misfold"]:
             ks.append("misfold=" + case["misfold"])
-        if isinstance(trace, dict) and "out" in trace:
-            kind, r = trace["out"]["enh"]
-            if kind == "raised":
-                ks.append("raised")
-            elif r.valid:
-                ks.append("valid=" + r.strategy_used.value if r.strategy_used else "valid=?")
-                ks.append("coercions=%d" % len(r.coercions_applied))
-            else:
-                ks.append("invalid")
-            for row in trace["out"]["enh_log"]:
-                if row[0] in (1, 5) and row[2] == 3:
-                    ks.append("oracle-raised-other:" + ("loads" if row[0] == 1 else "validate"))
-                if row[0] == 4 and row[2] == 3:
-                    ks.append("oracle-raised-other:coerce")
+        if isinstance(trace, dict) and "steps" in trace:
+            for st in trace["steps"]:
+                if "res" not in st:
+                    continue
+                ks.append("strategies=%d" % len(self.effective(case, st["op"][3])))
+                kind, r = st["res"]
+                if kind == "raised":
+                    ks.append("raised")
+                elif r.valid:
+                    if st["op"][0] == "enh":
+                        ks.append("valid=" + r.strategy_used.value if r.strategy_used else "valid=?")
+                        ks.append("coercions=%d" % len(r.coercions_applied))
+                    else:
+                        ks.append("valid(fold)")
+                else:
+                    ks.append("invalid")
+                for row in st["log"]:
+                    if row[0] in (1, 5) and row[2] == 3:
+                        ks.append("oracle-raised-other:" + ("loads" if row[0] == 1 else "validate"))
+                    if row[0] == 4 and row[2] == 3:
+                        ks.append("oracle-raised-other:coerce")
         return sorted(set(ks))
 
     def shrink(self, case, pred):
         case = dict(case)
-        for key in ("arg", "ctor"):
-            if case[key]:
-                eff = self.effective(case)
-                cand = common.shrink_list(case[key], lambda l: len(l) > 0 and pred({**case, key: l}))
-                case[key] = cand
-        raw = parts_text(case["raw"])
-        if len(raw) <= 4000:
-            chars = common.shrink_list(list(raw), lambda cs: pred({**case, "raw": to_parts("".join(cs))}), max_rounds=400)
-            case["raw"] = to_parts("".join(chars))
-        fields = common.shrink_list(case["schema"], lambda fs: len(fs) > 0 and pred({**case, "schema": fs}))
-        case["schema"] = fields
+        case["ops"] = common.shrink_list(case["ops"], lambda l: len(l) > 0 and pred({**case, "ops": l}))
+        for i, op in enumerate(case["ops"]):
+            if op[0] in ("fold", "enh") and op[3]:
+                for cand in (None, op[3][:1]):
+                    ops2 = [list(o) for o in case["ops"]]
+                    ops2[i][3] = cand
+                    try:
+                        if cand != op[3] and pred({**case, "ops": ops2}):
+                            case["ops"] = ops2
+                            break
+                    except Exception:
+                        pass
+        for key in ("misfold",):
+            if case[key] and pred({**case, key: None}):
+                case[key] = None
+        if case["ctor"] and pred({**case, "ctor": None}):
+            case["ctor"] = None
+        for ti in range(len(case["texts"])):
+            raw = parts_text(case["texts"][ti])
+            if len(raw) <= 2000:
+                def with_text(cs, ti=ti):
+                    tx = list(case["texts"])
+                    tx[ti] = to_parts("".join(cs))
+                    return {**case, "texts": tx}
+                chars = common.shrink_list(list(raw), lambda cs: pred(with_text(cs)), max_rounds=300)
+                case = with_text(chars)
         return case
 
 
